@@ -209,16 +209,13 @@ extern int mpt_connection_dispatch(MPT_STRUCT(connection) *con, MPT_TYPE(event_h
 		mpt_outdata_reply(&con->out, slen, buf + 1, 0);
 		return MPT_ERROR(BadValue);
 	}
-	/* discard existing message */
-	if (!cmd) {
-		buf->_used = 0;
-		mpt_outdata_reply(&con->out, hlen, buf + 1, 0);
-		return 0;
-	}
 	data = (void *) (buf + 1);
 	/* no message id */
 	if (!ilen) {
 		MPT_STRUCT(message) msg = MPT_MESSAGE_INIT;
+		if (!cmd) {
+			return 0;
+		}
 		msg.base = data + hlen;
 		msg.used = buf->_used - hlen;
 		ev.msg = &msg;
@@ -293,6 +290,13 @@ extern int mpt_connection_dispatch(MPT_STRUCT(connection) *con, MPT_TYPE(event_h
 			mpt_log(0, _func, MPT_LOG(Error), "%s: %s",
 			        MPT_tr("dispatch failed"), MPT_tr("context not ready"));
 			return MPT_ERROR(BadOperation);
+		}
+		/* discard message: default reply for request */
+		if (!cmd) {
+			if (rc) {
+				rc->_vptr->reply(rc, 0);
+			}
+			return 0;
 		}
 		msg.base = data + hlen;
 		msg.used = buf->_used - hlen;
